@@ -7,6 +7,6 @@ From Fibre Require Import Common.Conc Sync.HMutex Sync.HRwLock.
 Extraction Language OCaml.
 Set Extraction KeepSingleton.
 Extraction "model_k3lock.ml"
-  HMutex.mstep HMutex.minit HMutex.replay_trace HMutex.mev_eqb HMutex.peek HMutex.skeleton
+  HMutex.mstep HMutex.minit HMutex.replay_trace HMutex.replay_from HMutex.mev_eqb HMutex.peek HMutex.skeleton
   HMutex.results HMutex.holders
-  HRwLock.rwstep HRwLock.rwinit HRwLock.rw_replay_trace HRwLock.rwpeek HRwLock.rskeleton HRwLock.rresults.
+  HRwLock.rwstep HRwLock.rwinit HRwLock.rw_replay_trace HRwLock.rw_replay_from HRwLock.rwpeek HRwLock.rskeleton HRwLock.rresults.
